@@ -238,6 +238,9 @@ CALLS = [
     {"op": "incr", "key": "k", "delta": "x"},
     {"op": "set", "key": "k", "value": "v", "expire": "x"},
     {"op": "gat", "key": "k", "expire": None},
+    {"op": "set", "key": b"caf\xe9", "value": b"v", "noreply": False},
+    {"op": "get", "key": b"\xff\xfek"},
+    {"op": "incr", "key": b"\x80k", "delta": 1},
     {"op": "getitem", "key": "k"},
     {"op": "setitem", "key": "k", "value": "v"},
     {"op": "delitem", "key": "k"},
@@ -271,7 +274,7 @@ def random_strategy(tier):
         "keepalive": st.sampled_from([None, [1, 1, 5], [7, 2, 3]]),
         "tls": st.booleans(),
     })
-    key = st.sampled_from(["k", b"k", "j", "zz", "ké", "bad key", b"k\r\n", "k" * 250, "€uro", ""])
+    key = st.sampled_from(["k", b"k", "j", "zz", "ké", "bad key", b"k\r\n", "k" * 250, "€uro", "", b"caf\xe9", b"\xff\xfe", b"\x80", "caf\xe9".encode("utf-8")])
     value = st.sampled_from(["v", b"v", "é", "€", 5, -3, b"\r\nEND\r\n", "", b"x" * 5000])
     noreply = st.sampled_from([True, False, None])
     expire = st.sampled_from([0, 5, -1, 2592001, "x", None, 1.5])
